@@ -330,8 +330,12 @@ def tail_move(ct: Container, rep, rule="tail-move-order", shift_rule="shift-cons
     writes = ff.ev("raw_write")
     truncs = ff.ev("truncate")
     flushes = ff.ev("flush")
-    if not reads or not writes or not truncs:
-        raise AnalysisError(f"{fq}: tail move (read / write / truncate) not found (anchor vanished)")
+    if not reads or not writes:
+        raise AnalysisError(f"{fq}: tail move (read / write) not found (anchor vanished)")
+    if not truncs:
+        rep.fail(rule, MOD(ct), fq, writes[0].stmt, "the file is not truncated after the tail was moved up: the removed block's size stays in the file as dead bytes",
+                 construct="truncate after tail move")
+        return
     rd, wr, tr = reads[0], writes[0], truncs[0]
     removed = norm(ff.ev("table_remove")[0].value) if ff.ev("table_remove") else None
     # the written value is what was read
@@ -461,6 +465,15 @@ def repoint_later(ct: Container, rep, rule="repoint-later-slots"):
             rep.ok(rule, f"{fq}: every later slot is re-pointed unconditionally; a dominating check established they are all unused", nontrivial=True)
         else:
             rep.fail(rule, MOD(ct), fq, e.stmt, f"re-pointing is conditional on {conds or 'an else-branch'}: some later unused slots keep a stale offset")
+    # value: end of the new block
+    new_entry = norm(stores[0].value)
+    want_v = to_poly(ast.parse(f"{new_entry}.offset + {new_entry}.size", mode="eval").body, ct.ctx)
+    for e in fa:
+        got = to_poly(ff.resolve(e.value), ct.ctx)
+        if e.op == "=" and got == want_v:
+            rep.ok(rule, f"{fq}: later slots point at {new_entry}.offset + {new_entry}.size (end of data)", nontrivial=True)
+        else:
+            rep.fail(rule, MOD(ct), fq, e.stmt, f"later slot offset is `{norm(e.value)}` (op {e.op}), not the end of the new block `{new_entry}.offset + {new_entry}.size`")
     if raises or pre_dom:
         rep.ok(rule, f"{fq}: a live entry after the filled slot is refused")
     else:
@@ -663,12 +676,15 @@ def _sequential_to_end(ct, ff, prev):
     for p in prev:
         if p.kind == "entry_write":
             info = ff.entry_names.get(norm(p.entry))
-            if not (info and info[0] == "elem" and info[1] == "for"):
+            if not (info and info[0] == "elem" and info[1] in ("for", "enumerate")):
                 return False
             loop = next((st for st in walk_no_nested(ff.f.node) if isinstance(st, ast.For) and any(s is p.stmt for s in ast.walk(st))), None)
-            if loop is None or not ct.is_entries_slice(loop.iter):
+            it = loop.iter if loop is not None else None
+            if isinstance(it, ast.Call) and norm(it.func) == "enumerate" and it.args:
+                it = it.args[0]
+            if loop is None or not ct.is_entries_slice(it):
                 return False
-            if isinstance(loop.iter, ast.Subscript) and loop.iter.slice.upper is not None:
+            if isinstance(it, ast.Subscript) and it.slice.upper is not None:
                 return False
         elif p.kind == "seek":
             # empty loop: seek to slot lo, lo == len(entries) at that time; accept when the seek precedes such a loop
